@@ -234,6 +234,10 @@ def check_config(cfg, rep, tier='quick'):
 
 def run(tier, replay=None):
     rep = common.new_report('C14', tier, 'proof')
+    # the likely-script refinement is decided with a model of maximize: tie the model to the code (obligations shared with C06)
+    p1 = common.program('K1')
+    ct, exp, order, nrows = tables.likely(p1, rep)
+    likely.check_maximize(p1, rep, ct, order)
     o1, nloc = check_config('K1', rep, tier)
     o0, _ = check_config('K0', rep, tier)
     rep.count('decision-list paths (K1 / K0)', '%d / %d' % (o1['paths'], o0['paths']))
@@ -247,5 +251,5 @@ def run(tier, replay=None):
                        'maximize(language, None, region)); variants are never read; (c) the checker applies that list, with its own model of maximize built from likelySubtags.json, '
                        'to every CLDR locale (exhaustive), to every listed script x probe languages, to every CLDR language x unlisted scripts, and to every RTL language x every region. '
                        'The library is not executed; C06 ties the model of maximize to the code.')
-    rep.assumptions = ['<[T]>::contains is membership (std)', 'C06 holds (the model of maximize used for the K1 refinement is the cascade C06 proves of the code)']
+    rep.assumptions = ['<[T]>::contains is membership (std)', 'the model of maximize used for the K1 refinement is the cascade that the CASC/TAB obligations (shared with C06, re-checked here) prove of the code']
     return rep.finish()
